@@ -170,6 +170,7 @@ pub fn run(ctx: &Ctx) {
     }
     // ---- D2: operand forms through the assembler and the interpreter
     crate::l1::run_forms(ctx, crate::l1::FormSet::Arith);
+    crate::l3fam::run(ctx, crate::l3fam::Fam::Set(crate::l1::FormSet::Arith), ctx.tier.pick(320usize, 6000usize));
     if ctx.tier == Tier::Thorough {
         crate::fuzzrun::exec_campaign(ctx, &["add", "adc", "sub", "sbb", "cmp", "inc", "dec", "neg"], &[]);
     }
